@@ -71,6 +71,7 @@ pub fn gen_file(seed: u64, i: u64, want_many: bool) -> (Vec<u8>, usize) {
             ch.disabled = dis.clone();
             let mut rw = RefWriter::new(&mut ch);
             rw.ghost_objects = i % 3 == 2;
+            rw.objstm_lengths_indirect = i % 5 == 3;
             rw.write(&h, XrefStyle::Stream, true)
         };
         let k = w.objstm_ids.len();
